@@ -684,7 +684,7 @@ func (s *vSUT) exec(line string) (out string) {
 		select {
 		case r := <-ch:
 			eb, err = r.eb, r.err
-		case <-time.After(10 * time.Second):
+		case <-time.After(20 * time.Second):
 			s.poisoned = true
 			return "hang"
 		}
